@@ -96,7 +96,7 @@ pub trait Host {
     }
 }
 
-enum Held {
+pub enum Held {
     A(Request<OpA>),
     B(Request<OpB>),
 }
@@ -113,14 +113,14 @@ fn desc_render() -> EffectDesc {
 
 /// typed requests held by a simulated shell
 #[derive(Default)]
-struct Shelf {
-    reqs: BTreeMap<ReqKey, Held>,
+pub struct Shelf {
+    pub reqs: BTreeMap<ReqKey, Held>,
     renders: Vec<Request<RenderOperation>>,
     dup_keys: Vec<ReqKey>,
 }
 
 impl Shelf {
-    fn absorb<Ef: SimEffect>(&mut self, effs: impl IntoIterator<Item = Ef>, out: &mut Vec<EffectDesc>) {
+    pub fn absorb<Ef: SimEffect>(&mut self, effs: impl IntoIterator<Item = Ef>, out: &mut Vec<EffectDesc>) {
         for e in effs {
             match e.split() {
                 AnyReq::A(r) => {
@@ -304,8 +304,8 @@ where
     A::Effect: SimEffect,
 {
     pub core: Option<Core<A>>,
-    shelf: Shelf,
-    pending: Vec<EffectDesc>,
+    pub shelf: Shelf,
+    pub pending: Vec<EffectDesc>,
     log_seen: usize,
 }
 
